@@ -252,7 +252,7 @@ def cmd_check(prop, tier, seed, only=None, jobs=None, verbose=False):
             results.append(_work(it))
     else:
         ctxmp = multiprocessing.get_context('fork')
-        with ctxmp.Pool(min(jobs, len(items))) as pool:
+        with ctxmp.Pool(min(jobs, len(items)), maxtasksperchild=1) as pool:
             for r in pool.imap_unordered(_work, items, chunksize=1):
                 results.append(r)
                 if verbose:
@@ -284,6 +284,9 @@ def cmd_check(prop, tier, seed, only=None, jobs=None, verbose=False):
                 viol[k] = dict(v, harness=r['harness'], params=r['params'])
             else:
                 viol[k]['count'] += v['count']
+                if r['params'] == viol[k]['params']:
+                    viol[k]['more'] = (viol[k].get('more', []) +
+                                       v.get('more', []))[:8]
         for s in r['samples']:
             samples.append(dict(s, harness=r['harness']))
         for k, n in r['covered'].items():
@@ -298,25 +301,34 @@ def cmd_check(prop, tier, seed, only=None, jobs=None, verbose=False):
     real_viol, known_hit, not_repro = [], [], []
     max_replays = int(os.environ.get('VERIF_MAX_REPLAYS', '40'))
     for (hname, key), v in sorted(viol.items())[:max_replays]:
-        rec = {'property': prop, 'harness': hname, 'params': v['params'],
-               'inputs': v['inputs'], 'key': key, 'label': v['label'],
-               'detail': v['detail']}
-        blob = json.dumps(rec, sort_keys=True, indent=1)
-        h = hashlib.sha1(blob.encode()).hexdigest()[:10]
-        path = os.path.join(HERE, 'replay', '%s-%s.json' % (prop, h))
-        with open(path, 'w') as f:
-            f.write(blob)
-        p = subprocess.run([sys.executable, '-m', 'pysym.driver',
-                            '--replay', path], env=env, cwd=HERE,
-                           capture_output=True, text=True, timeout=600)
-        if p.returncode == 1 and 'REPRODUCED' in p.stdout:
+        attempts = [(v['inputs'], v['detail'])] + [
+            (m['inputs'], m['detail']) for m in v.get('more', [])]
+        outcome = None
+        for inputs, detail in attempts:
+            rec = {'property': prop, 'harness': hname, 'params': v['params'],
+                   'inputs': inputs, 'key': key, 'label': v['label'],
+                   'detail': detail}
+            blob = json.dumps(rec, sort_keys=True, indent=1)
+            h = hashlib.sha1(blob.encode()).hexdigest()[:10]
+            path = os.path.join(HERE, 'replay', '%s-%s.json' % (prop, h))
+            with open(path, 'w') as f:
+                f.write(blob)
+            p = subprocess.run([sys.executable, '-m', 'pysym.driver',
+                                '--replay', path], env=env, cwd=HERE,
+                               capture_output=True, text=True, timeout=600)
+            if p.returncode == 1 and 'REPRODUCED' in p.stdout:
+                v = dict(v, inputs=inputs, detail=detail)
+                outcome = ('repro', path, p.stdout)
+                break
+            outcome = ('norepro', path, (p.stdout + p.stderr)[-1500:])
+        if outcome[0] == 'repro':
             k = _match_known(prop, key, known)
             if k:
-                known_hit.append((k, v, path))
+                known_hit.append((k, v, outcome[1]))
             else:
-                real_viol.append((v, path, p.stdout))
+                real_viol.append((v, outcome[1], outcome[2]))
         else:
-            not_repro.append((v, path, (p.stdout + p.stderr)[-1500:]))
+            not_repro.append((v, outcome[1], outcome[2]))
     if len(viol) > max_replays:
         inconclusive.append('%d further counterexample keys were not '
                             'replayed' % (len(viol) - max_replays))
